@@ -172,7 +172,7 @@ type Prim struct {
 func (s *Sem) Holds(k Conj, p Prim) bool { return s.holds(k, p, 0) }
 
 func (s *Sem) holds(k Conj, p Prim, depth int) bool {
-	for f := range k {
+	for _, f := range k.List() {
 		if p.Direct(f) {
 			return true
 		}
@@ -185,7 +185,7 @@ func (s *Sem) holds(k Conj, p Prim, depth int) bool {
 		idx int
 		f   Fact
 	}{}
-	for f := range k {
+	for _, f := range k.List() {
 		if c, idx := callResult(f.X); c != nil {
 			if g := StaticCallee(c.Common()); g != nil && g.Blocks != nil && s.C.inModule(g) {
 				byCall[c] = append(byCall[c], struct {
@@ -232,9 +232,8 @@ func (s *Sem) holds(k Conj, p Prim, depth int) bool {
 				any = true
 				dd := d
 				if len(extra) > 0 {
-					dd = d.clone()
 					for _, e := range extra {
-						dd[e] = struct{}{}
+						dd = dd.With(e)
 					}
 				}
 				if !s.holds(dd, p, depth+1) {
@@ -630,3 +629,8 @@ func TypeIsNamed(t types.Type, full string) bool { return NamedTypeOf(t) == full
 
 // KMD_IsAdminUser returns the full name of IsAdminUser (exported for rule files).
 func KMD_IsAdminUser() string { return fnIsAdminUser }
+
+// HoldsOnPathsWithinInstr is HoldsOnPathsWithin for predicates over the site alone (e.g. "a dominating call exists").
+func (s *Sem) HoldsOnPathsWithinInstr(site ssa.Instruction, pred func(at ssa.Instruction) bool, roots, within map[*ssa.Function]bool, depth int) (bool, string) {
+	return s.holdsOnAllPaths(site, func(st DNF, at ssa.Instruction) bool { return pred(at) }, roots, within, depth, map[*ssa.Function]bool{})
+}
